@@ -251,7 +251,27 @@ class Builtins:
         return ex.ev_list(st, [e.value] + parts, cx, f)
 
     def listcomp(self, st, e, cx, k):
-        raise_vc(f'comprehension outside subset: {ast.unparse(e)}')
+        """[elt for v in xs] over a list xs, no filter: a fresh list of the same length whose j-th element is elt at
+        v = xs[j] (elt must be effect-free and total: it is evaluated once, at a symbolic index)."""
+        ex = self.ex
+        if len(e.generators) != 1 or e.generators[0].ifs or not isinstance(e.generators[0].target, ast.Name):
+            raise_vc(f'comprehension outside subset: {ast.unparse(e)}')
+        g = e.generators[0]
+        from .engine import SV
+        from . import vtypes as T
+
+        def f(st, xs):
+            if xs.ty.kind != 'list':
+                raise_vc(f'comprehension over {xs.ty!r} outside subset: {ast.unparse(e)}')
+            ex.counter += 1
+            j = z3.Int(f'j!comp{ex.counter}')
+            arr = ex.list_arr(st, xs)
+            xv = SV(xs.ty.args[0], ex.select(arr, j))
+            prev = st.vars.get(g.target.id)
+            body = ex.pure(st.setvar(g.target.id, xv), e.elt, cx)
+            s2, r = ex.new_list(st, T.lst(body.ty), ex.list_len(st, xs), z3.Lambda([j], body.z), 'comp')
+            return k(s2, r)
+        return ex.ev(st, g.iter, cx, f)
 
 
 def raise_vc(msg):
